@@ -65,6 +65,8 @@ def plan_size(t, mv):
     if is_static(t):
         return static_size(t)
     if k == "str":
+        if hasattr(mv, "cap"):  # created from a capacity: the stored size is 8 + capacity, unrounded
+            return 8 + mv.cap
         return 8 + slot(len(mv.encode("utf8")) + 1)
     if k == "st":
         n = 8
@@ -85,7 +87,7 @@ def plan_size(t, mv):
             return slot(n + cnt * static_size(t["it"]))
         n += 8 * cnt
         for v in mv.items.values():
-            n += plan_size(t["it"], v)
+            n += slot(plan_size(t["it"], v))  # every item starts on a slot boundary
         return slot(n)
     raise ValueError(k)
 
@@ -149,8 +151,8 @@ class Decoder:
         if size < 9 or off + size > len(self.raw):
             self.err("string-bad-size", label, f"size word {size} at {off}")
             raise _Stop()
-        if size % 8:
-            self.err("string-size-not-slot-multiple", label, f"size {size}")
+        # (the size of a string created from a capacity is 8 + capacity and need not be a multiple of 8;
+        # what must hold is that the parts around it start on slot boundaries, checked by the parents)
         data = self.raw[off + 8:off + size]
         nul = data.find(b"\x00")
         if nul < 0:
